@@ -571,7 +571,12 @@ impl Rasn {
                     .to_token_stream(),
                 )
             }
-            ASN1Type::Real(_) => (vec![], quote!(f64)),
+            ASN1Type::Real(_) => {
+                return Err(error!(
+                    NotYetInplemented,
+                    "Real types are currently unsupported!"
+                ))
+            }
             ASN1Type::ObjectIdentifier(o) => (o.constraints.clone(), quote!(ObjectIdentifier)),
             ASN1Type::BitString(b) => (b.constraints.clone(), quote!(BitString)),
             ASN1Type::OctetString(o) => (o.constraints.clone(), quote!(OctetString)),
@@ -727,7 +732,10 @@ impl Rasn {
             ASN1Type::Null => Ok(quote!(())),
             ASN1Type::Boolean(_) => Ok(quote!(bool)),
             ASN1Type::Integer(i) => Ok(i.int_type().to_token_stream()),
-            ASN1Type::Real(_) => Ok(quote!(f64)),
+            ASN1Type::Real(_) => Err(error!(
+                NotYetInplemented,
+                "Real types are currently unsupported!"
+            )),
             ASN1Type::BitString(_) => Ok(quote!(BitString)),
             ASN1Type::OctetString(_) => Ok(quote!(OctetString)),
             ASN1Type::CharacterString(c) => self.string_type(c.ty),
